@@ -71,11 +71,12 @@ pub fn check(c: &Case) -> Vec<(String, String)> {
     let key = s(c.k);
     // value variants per kind: (call, expected "v1:v2" text)
     let (res, vals, code): (Result<String, MetricError>, String, &str) = match c.kind % 7 {
-        0 => match c.v % 5 {
+        0 => match c.v % 6 {
             0 => (decorate(client.count_with_tags(key, -7i64), c), "-7".into(), "c"),
             1 => (decorate(client.count_with_tags(key, i64::MIN), c), i64::MIN.to_string(), "c"),
             2 => (decorate(client.count_with_tags(key, 42u32), c), "42".into(), "c"),
             3 => (decorate(client.incr_with_tags(key), c), "1".into(), "c"),
+            5 => (decorate(client.count_with_tags(key, u64::MAX), c), u64::MAX.to_string(), "c"),
             _ => (decorate(client.decr_with_tags(key), c), "-1".into(), "c"),
         },
         1 => match c.v % 3 {
@@ -147,7 +148,7 @@ pub fn search(prop: &str, seed: u64, budget: u64) -> Option<(String, Vec<(String
         let ndt = rng.below(4);
         let nt = rng.below(4);
         let o = |rng: &mut Rng, m: u64| if rng.below(2) == 0 { None } else { Some(rng.below(m) as usize) };
-        let c = Case { p: rng.below(n) as usize, k: rng.below(n) as usize, kind: rng.below(7) as usize, v: rng.below(5) as usize,
+        let c = Case { p: rng.below(n) as usize, k: rng.below(n) as usize, kind: rng.below(7) as usize, v: rng.below(6) as usize,
             dt: (0..ndt).map(|_| tag(&mut rng)).collect(), t: (0..nt).map(|_| tag(&mut rng)).collect(),
             dc: o(&mut rng, n), c: o(&mut rng, n), r: o(&mut rng, 4), ts: o(&mut rng, 3) };
         let fails = check(&c);
